@@ -2,15 +2,46 @@
 // (two-phase lookup: the template below must see them at its point of definition).
 #ifndef CODEC_SHIM_HANDLE_HPP
 #define CODEC_SHIM_HANDLE_HPP
+// answer of one deserialization into dst: "ok <dump> <consumed>" or "err:<kind>"
+template <typename T>
+void de_answer(T& dst, const nunavut::support::const_bitspan& in)
+{
+    const auto r = deserialize(dst, in);
+    if (!r) { o_str(cpp_err_name(static_cast<int>(r.error()))); }
+    else { o_str("ok"); dump(dst); o_u64(r.value()); }
+}
+
 // One handler for every type: T must have parse(P*, T&), dump(const T&), serialize, deserialize found by ADL/overload.
+//   dereuse <idx> <hexA> <hexB>   decode A into an object, then B into the SAME object; answer as `de B`
+//   rtreuse <idx> <V1> | <V2>     round trip of V1, then V2 through the SAME source and destination objects; answer as `rt V2`
+// `de` is also answered with the representation handed over as a sub-range of a larger buffer (const_bitspan over the
+// middle of it); a difference is reported as err:spelling:<name>:<answer>.
 template <typename T>
 int handle(const char* op, const char* rest, void (*probe)())
 {
-    const bool is_ser = !std::strcmp(op, "ser"), is_serbuf = !std::strcmp(op, "serbuf"), is_rt = !std::strcmp(op, "rt");
+    const bool is_ser = !std::strcmp(op, "ser"), is_serbuf = !std::strcmp(op, "serbuf");
+    const bool is_rtreuse = !std::strcmp(op, "rtreuse"), is_rt = !std::strcmp(op, "rt") || is_rtreuse;
     if (is_ser || is_serbuf || is_rt)
     {
         T obj{};
+        T o2{};
         P p = {rest, 0};
+        if (is_rtreuse)
+        {
+            // prior state: the first value goes through obj and (if it serializes) through o2; the second value is then
+            // parsed into the SAME obj and decoded into the SAME o2 (a subscriber that keeps its message object)
+            bool have = true;
+            try { parse(&p, obj); } catch (const NotApplicable&) { have = false; }
+            if (have && !p.err)
+            {
+                const std::size_t c0 = T::_traits_::SerializationBufferSizeBytes;
+                std::uint8_t* b0 = guarded_alloc(c0, 0x00);
+                const auto r0 = serialize(obj, nunavut::support::bitspan{b0, c0});
+                if (r0) { (void) deserialize(o2, nunavut::support::const_bitspan{b0, r0.value()}); }
+                guarded_free(b0);
+            }
+            { const char* bar = std::strchr(rest, '|'); if (bar) { p.p = bar + 1; p.err = 0; } else { p.err = 1; } }
+        }
         try { parse(&p, obj); } catch (const NotApplicable&) { o_str("n/a"); return 1; }
         std::size_t cap = T::_traits_::SerializationBufferSizeBytes;
         if (is_serbuf) { cap = static_cast<std::size_t>(p_u64(&p)); }
@@ -29,7 +60,6 @@ int handle(const char* op, const char* rest, void (*probe)())
             o_hex(buf, size);
             if (is_rt)
             {
-                T o2{};
                 std::uint8_t* in = static_cast<std::uint8_t*>(std::malloc(size ? size : 1));
                 std::memcpy(in, buf, size);
                 const auto r2 = deserialize(o2, nunavut::support::const_bitspan{in, size});
@@ -50,14 +80,33 @@ int handle(const char* op, const char* rest, void (*probe)())
         guarded_free(buf);
         return 1;
     }
-    if (!std::strcmp(op, "de"))
+    const bool is_dereuse = !std::strcmp(op, "dereuse");
+    if (!std::strcmp(op, "de") || is_dereuse)
     {
         std::uint8_t* in = nullptr;
-        const std::size_t n = hex_decode(rest, &in);
-        T o2{};
-        const auto r = deserialize(o2, nunavut::support::const_bitspan{in, n});
-        if (!r) { o_str(cpp_err_name(static_cast<int>(r.error()))); }
-        else { o_str("ok"); dump(o2); o_u64(r.value()); }
+        std::size_t n = hex_decode(rest, &in);
+        {
+            T o2{};
+            if (is_dereuse)
+            {
+                // the first string only leaves its traces in the object (whatever the outcome)
+                (void) deserialize(o2, nunavut::support::const_bitspan{in, n});
+                std::free(in);
+                n = hex_decode(second_token(rest), &in);
+            }
+            de_answer(o2, nunavut::support::const_bitspan{in, n});
+        }
+        char* prim = o_take();
+        {
+            // the representation as a sub-range of a larger buffer, other data before and behind it
+            std::uint8_t* big = static_cast<std::uint8_t*>(std::malloc(n + 48));
+            std::memset(big, 0xEE, 16); std::memcpy(big + 16, in, n); std::memset(big + 16 + n, 0xFF, 32);
+            T o3{};
+            de_answer(o3, nunavut::support::const_bitspan{big + 16, n});
+            std::free(big);
+        }
+        if (!o_differs(prim, "embedded-in-larger-buffer")) { o_str(prim); }
+        std::free(prim);
         std::free(in);
         return 1;
     }
